@@ -43,6 +43,8 @@ type pt struct {
 	mu    *vsync.Mutex
 	label string
 	sig   uint64 // hash of the call stack at the point
+	// callerNo: a lock point whose calling function Config.BranchCaller refused
+	callerNo bool
 }
 
 type G struct {
@@ -89,6 +91,10 @@ type Config struct {
 	Branch map[Kind]bool
 	// BranchMutex, if set, restricts branching at lock points to the mutexes it accepts.
 	BranchMutex func(m *vsync.Mutex) bool
+	// BranchCaller, if set, restricts branching at lock points to acquisitions made from functions
+	// it accepts (the name of the first frame outside the sync shim, e.g.
+	// "github.com/regclient/regclient.imageSeenOrWait").
+	BranchCaller func(fn string) bool
 	// Horizon is the maximum number of grants per execution (0 = 20000). Reaching it is reported
 	// as Outcome.Horizon (possible livelock); the rest of the execution is run round-robin up to
 	// FairTail further grants.
@@ -165,6 +171,23 @@ func (s *Sched) park(p *pt) bool {
 			}
 		}
 	}
+	if s.cfg.BranchCaller != nil && (p.kind == KLock || p.kind == KTryLock) {
+		var pcs [8]uintptr
+		n := runtime.Callers(3, pcs[:])
+		fr := runtime.CallersFrames(pcs[:n])
+		fn := ""
+		for {
+			f, more := fr.Next()
+			if !strings.Contains(f.Function, "/vsync.") && !strings.Contains(f.Function, "/qsched.") {
+				fn = f.Function
+				break
+			}
+			if !more {
+				break
+			}
+		}
+		p.callerNo = !s.cfg.BranchCaller(fn)
+	}
 	s.mu.Lock()
 	g.at = p
 	s.mu.Unlock()
@@ -221,6 +244,9 @@ func (s *Sched) branchable(g *G) bool {
 		return false
 	}
 	if (k == KLock || k == KTryLock) && s.cfg.BranchMutex != nil && !s.cfg.BranchMutex(g.at.mu) {
+		return false
+	}
+	if g.at.callerNo {
 		return false
 	}
 	return true
